@@ -218,6 +218,53 @@ Proof.
     split; [exact H3|]. now constructor.
 Qed.
 
+(** ** The mapped store over a user-supplied Store ([mem_ustep]): whatever
+    the Store returns TOGETHER with an error — bytes, a key, [true] — the
+    mapped store hands on the error alone; a result reaches the caller only
+    from a call in which the Store reported no error, and is then sound. *)
+Notation ustep := (mem_ustep D true true).
+
+Theorem mem_ustep_ok st sh op : mem_ok st -> mem_ok (fst (ustep st sh op)).
+Proof.
+  intros Hok. destruct sh as [|e|e]; cbn [mem_ustep]; [now apply mem_step_ok| |].
+  - destruct op; try (now apply mem_step_ok); try exact Hok.
+    destruct (drain s) as [c [| |x]]; exact Hok.
+  - destruct op; try (now apply mem_step_ok); try exact Hok.
+    destruct (drain s) as [c [| |x]] eqn:E; try exact Hok. cbn [fst]. now apply mem_step_ok.
+Qed.
+
+Definition ures_sound (sh : ushape) (op : mop) (r : mres) : Prop :=
+  match op, r with
+  | MpOpen k, MRBytes c => sh = UPlain /\ HK c = k
+  | MpCreate s, MRKey k => sh = UPlain /\ drain s = (fst (drain s), REof) /\ k = HK (fst (drain s))
+  | MpHas _, MRBool _ => sh = UPlain
+  | _, _ => True
+  end.
+
+Theorem mem_ustep_sound st sh op : mem_ok st -> ures_sound sh op (snd (ustep st sh op)).
+Proof.
+  intros Hok. destruct sh as [|e|e]; cbn [mem_ustep].
+  - pose proof (mem_step_sound st op Hok) as H. unfold ures_sound.
+    destruct op; try exact I; destruct (snd (mstep st _)); try exact I; cbn [res_sound] in H; auto.
+  - destruct op; unfold ures_sound; try exact I; cbn [snd]; try exact I;
+      try (destruct (snd (mstep st _)); exact I).
+    destruct (drain s) as [c [| |x]]; exact I.
+  - destruct op; unfold ures_sound; try exact I; cbn [snd]; try exact I;
+      try (destruct (snd (mstep st _)); exact I).
+    destruct (drain s) as [c [| |x]]; exact I.
+Qed.
+
+Theorem mem_ustep_error_alone st k e :
+  ustep st (UErr e) (MpOpen k) = (st, MRErr e) /\ ustep st (UBoth e) (MpOpen k) = (st, MRErr e) /\
+  ustep st (UErr e) (MpHas k) = (st, MRErr e) /\ ustep st (UBoth e) (MpHas k) = (st, MRErr e).
+Proof. repeat split. Qed.
+
+Theorem mem_ustep_create_error st s c e :
+  drain s = (c, REof) ->
+  ustep st (UErr e) (MpCreate s) = (st, MRErr e) /\
+  snd (ustep st (UBoth e) (MpCreate s)) = MRErr e.
+Proof. intros Hd. cbn [mem_ustep]. rewrite Hd. split; reflexivity. Qed.
+
 End Proofs.
 
 Local Open Scope N_scope.
